@@ -47,9 +47,11 @@ def rust_payload(ty):
     return ty
 
 
-def walker_src(k, G, pres):
+def walker_src(k, G, pres, walk=True):
     """Rust source of the glue for grammar k: token constructor, error shower, tree walker (exact destructuring),
-    and the run function. The walker mirrors Cfg!Tree projected by the presentation (C02, C06)."""
+    and the run function. The walker mirrors Cfg!Tree projected by the presentation (C02, C06).
+    walk=False leaves the tree walker out (the tree is printed as `?`): the fallback C01 / C03 use when the emitted types
+    do not have the declared shape, so that acceptance and error reporting can still be decided."""
     m = "g%d" % k
     by = grammar.group_rules(G)
     out = []
@@ -68,7 +70,7 @@ def walker_src(k, G, pres):
             return "{ let q: &%s = %s; Pay::show(q) }" % (pres["ttypes"][sym], var)
         return "{ let b: &Box<%s::%s> = %s; show_%s_%s(&**b) }" % (m, sym, var, m, sym)
 
-    for A in pres["nts"]:
+    for A in (pres["nts"] if walk else []):
         idxs = by.get(A, [])
         body = []
         is_struct = bool(idxs) and pres["rules"][idxs[0]]["struct"]
@@ -104,12 +106,12 @@ def walker_src(k, G, pres):
     // C06: parse is a plain generic fn over any IntoIterator<Item = Tok> returning Result<Start, Option<Tok>>
     let f: fn(Counting<std::vec::IntoIter<%(m)s::Tok>>) -> Result<%(m)s::%(start)s, Option<%(m)s::Tok>> = %(m)s::parse;
     match std::panic::catch_unwind(std::panic::AssertUnwindSafe(|| f(it))) {
-        Ok(Ok(t)) => format!("OK %%s pulled=%%d after_end=%%s", show_%(m)s_%(start)s(&t), cnt.get(), ae.get()),
+        Ok(Ok(t)) => format!("OK %%s pulled=%%d after_end=%%s", %(show)s, cnt.get(), ae.get()),
         Ok(Err(Some(t))) => format!("ERR %%s pulled=%%d after_end=%%s", showtok_%(m)s(&t), cnt.get(), ae.get()),
         Ok(Err(None)) => format!("ERR None pulled=%%d after_end=%%s", cnt.get(), ae.get()),
         Err(_) => "PANIC".to_string(),
     }
-}''' % {"m": m, "start": start})
+}''' % {"m": m, "start": start, "show": ("show_%s_%s(&t)" % (m, start)) if walk else "{ let _ = &t; \"?\" }"})
     return "\n".join(out).replace("%d", "{}").replace("%s", "{}")
 
 
@@ -126,30 +128,32 @@ def expected_tree(G, pres, t, ids):
     return label + "(" + ",".join(kids) + ")"
 
 
-def build_and_run(cases, inputs, wd):
+def build_and_run(cases, inputs, wd, walk=True):
     """cases: list of dicts with 'rust', 'G', 'pres'. inputs: list of (case index, [(kind, id)...]).
-    Returns list of output strings."""
+    Returns (list of output strings, None) or (None, rustc's complaint)."""
     os.makedirs(wd, exist_ok=True)
     main = [GLUE_PRELUDE]
     for k, c in enumerate(cases):
         with open(os.path.join(wd, "g%d.rs" % k), "w") as f:
             f.write(c["rust"])
         main.append("mod g%d;" % k)
-        main.append(walker_src(k, c["G"], c["pres"]))
+        main.append(walker_src(k, c["G"], c["pres"], walk))
     main.append('''fn main() {
     std::panic::set_hook(Box::new(|_| {}));
-    use std::io::BufRead;
+    use std::io::{BufRead, Write};
     let stdin = std::io::stdin();
-    let mut out = String::new();
+    let stdout = std::io::stdout();
+    let mut out = stdout.lock();
     for line in stdin.lock().lines() {
         let line = line.unwrap();
         let mut it = line.split_whitespace();
         let g: usize = it.next().unwrap().parse().unwrap();
         let toks: Vec<(usize, u32)> = it.map(|x| { let mut s = x.split(':'); (s.next().unwrap().parse().unwrap(), s.next().unwrap().parse().unwrap()) }).collect();
         let r = match g { %s _ => unreachable!() };
-        out.push_str(&r); out.push('\\n');
+        // one line per input, flushed: when the process dies or stalls the first unanswered input is the culprit
+        let _ = writeln!(out, "{}", r);
+        let _ = out.flush();
     }
-    print!("{}", out);
 }''' % " ".join("%d => run_g%d(&toks)," % (k, k) for k in range(len(cases))))
     with open(os.path.join(wd, "main.rs"), "w") as f:
         f.write("\n".join(main))
@@ -159,17 +163,73 @@ def build_and_run(cases, inputs, wd):
     if p.returncode != 0:
         return None, p.stderr
     log("  rustc: %d emitted parsers compiled in %.1fs" % (len(cases), time.time() - t0))
-    lines = "\n".join("%d " % g + " ".join("%d:%d" % (k, i) for k, i in toks) for g, toks in inputs) + "\n"
-    try:
-        r = subprocess.run([os.path.join(wd, "runner")], input=lines, capture_output=True, text=True, timeout=1200)
-    except subprocess.TimeoutExpired:
-        return None, "HANG: the emitted parsers did not finish the input vectors within 1200 s"
-    if r.returncode != 0:
-        return None, "runner exited with %d: %s" % (r.returncode, r.stderr[-2000:])
-    outs = r.stdout.splitlines()
-    if len(outs) != len(inputs):
-        return None, "runner printed %d lines for %d inputs" % (len(outs), len(inputs))
-    return outs, None
+    lines = ["%d " % g + " ".join("%d:%d" % (k, i) for k, i in toks) for g, toks in inputs]
+    return run_isolating(os.path.join(wd, "runner"), lines), None
+
+
+STALL_S = 30          # no answer to one input for this long = the emitted parser hangs on it
+MAX_CULPRITS = 8
+
+
+def run_isolating(exe, lines):
+    """Feeds the input lines to the runner. The emitted code is the code under test: when the process dies (abort, stack
+    overflow, allocation failure under the address-space limit) or stops answering, the first unanswered input is the
+    culprit - it gets the pseudo result "DIED(<status>)" / "HANG" (a C01 violation: parse must terminate without
+    panicking) and the runner is restarted on the rest. After MAX_CULPRITS restarts the rest is marked "UNRUN"."""
+    import resource, threading, queue as _q
+
+    def limit():
+        resource.setrlimit(resource.RLIMIT_AS, (8 << 30, 8 << 30))
+    outs = []
+    pos = 0
+    culprits = 0
+    while pos < len(lines):
+        if culprits >= MAX_CULPRITS:
+            outs += ["UNRUN"] * (len(lines) - pos)
+            break
+        chunk = lines[pos:]
+        p = subprocess.Popen([exe], stdin=subprocess.PIPE, stdout=subprocess.PIPE, stderr=subprocess.DEVNULL, text=True, preexec_fn=limit)
+        q = _q.Queue()
+
+        def feed(p=p, chunk=chunk):
+            try:
+                p.stdin.write("\n".join(chunk) + "\n")
+                p.stdin.close()
+            except (BrokenPipeError, OSError):
+                pass
+
+        def read(p=p, q=q):
+            for ln in p.stdout:
+                q.put(ln.rstrip("\n"))
+            q.put(None)
+        threading.Thread(target=feed, daemon=True).start()
+        threading.Thread(target=read, daemon=True).start()
+        got = 0
+        verdict = None
+        while got < len(chunk):
+            try:
+                ln = q.get(timeout=STALL_S)
+            except _q.Empty:
+                verdict = "HANG"
+                p.kill()
+                break
+            if ln is None:
+                p.wait()
+                verdict = "DIED(%s)" % p.returncode
+                break
+            outs.append(ln)
+            got += 1
+        try:
+            p.kill()
+        except OSError:
+            pass
+        p.wait()
+        pos += got
+        if got < len(chunk):
+            outs.append(verdict)
+            pos += 1
+            culprits += 1
+    return outs
 
 
 def select_grammars(tier, seed, wd, run):
@@ -204,13 +264,19 @@ def select_grammars(tier, seed, wd, run):
         cases.append({"G": G, "pres": pres, "src": grammar.render(G, pres, attrs=False), "origin": origin})
     pipeline.run_real(cases, want=("grammar", "rust"))
     ok = []
+    drifted = []
     for c in cases:
         res = c["resp"]["res"]
         if res["t"] == "ok":
             why = grammar.same_grammar(c["G"], c["pres"], c["resp"]["grammar"])
-            if why:
-                raise ToolError("rendering is not faithful (%s):\n%s" % (why, c["src"]))
             c["rust"] = res["rust"]
+            if why:
+                # drift only: the predictions are made from the DECLARED grammar, so a front end that mangles the
+                # declarations shows up as a parser that accepts the wrong language / builds the wrong tree
+                if not drifted:
+                    print("CONFORMANCE-DRIFT the grammar kiki extracted differs from the declared one (%s): %s" % (why, json.dumps(c["src"])[:300]))
+                c["origin"] = "classics"      # never sampled away
+                drifted.append(c)
             ok.append(c)
     cap = 560 if tier == "quick" else 9000
     # grammars on which the pipeline's end-state judgement (PipelineJudge: verdict, automaton, tables) already disagrees with
@@ -286,7 +352,7 @@ def expected_line(c, pred_run, w, ids):
 def classify(prop_line_exp, got):
     """Which property a mismatch belongs to."""
     exp = prop_line_exp
-    if got == "PANIC":
+    if got == "PANIC" or got == "HANG" or got.startswith("DIED"):
         return "C01"
     if got.startswith("OK") != exp.startswith("OK"):
         return "C01"
@@ -325,6 +391,10 @@ def check(prop, tier, seed):
         sub = cases[lo:lo + batch]
         sub_inputs = [(g - lo, toks) for g, toks in inputs if lo <= g < lo + batch]
         o, err = build_and_run(sub, sub_inputs, os.path.join(wd, "crate_%d" % lo))
+        if o is None and prop != "C02":
+            # the exact-shape walker is C02's instrument; without it acceptance and error reporting can still be observed
+            log("  (the exact-shape walker does not compile against the emitted types - C02/C06 territory; running without it)")
+            o, err = build_and_run(sub, sub_inputs, os.path.join(wd, "crate_%d" % lo), walk=False)
         if o is None:
             if err.startswith("HANG"):
                 run.violation({"kind": "hang", "why": "C01: " + err, "batch": lo})
@@ -340,10 +410,18 @@ def check(prop, tier, seed):
             raise ToolError("emitted parsers or glue did not compile / run (C05/C06 territory):\n" + err[:6000])
         outs += o
     shapes = set()
+    run.notes["inputs_not_run_after_repeated_crashes"] = sum(1 for g in outs if g == "UNRUN")
     for (k, w, ids), got in zip(meta, outs):
+        if got == "UNRUN":
+            continue
         c = cases[k]
         pred = preds[k]
         run.evaluations += 1
+        if got == "HANG" or got.startswith("DIED"):
+            if prop == "C01":
+                run.violation(vcase(c, w, ids, "a result (Ok or Err)", got, "C01: the emitted parse function did not terminate normally on this input "
+                                    "(HANG = no answer within %d s; DIED(status) = the process was killed: abort, stack overflow or allocation failure)" % STALL_S))
+            continue
         if pred["skip"] is not None:
             # generate accepted a grammar the specification says is not LALR(1): no table-based prediction exists;
             # C01 is still decidable from the language itself
@@ -496,6 +574,8 @@ def longer_inputs(prop, tier, seed, run, wd):
             inputs.append((k, [(c["pres"]["ts"].index(x), i) for x, i in zip(w, ids)]))
             meta.append((k, w, ids))
     outs, err = build_and_run(ok, inputs, os.path.join(wd, "crate_long"))
+    if outs is None and prop != "C02":
+        outs, err = build_and_run(ok, inputs, os.path.join(wd, "crate_long"), walk=False)
     if outs is None:
         if err.startswith("HANG"):
             run.violation({"kind": "hang", "why": "C01: " + err})
@@ -508,6 +588,8 @@ def longer_inputs(prop, tier, seed, run, wd):
             return
         raise ToolError("emitted parsers or glue did not compile / run:\n" + err[:6000])
     # hand the observations to TLC
+    keep = [i for i, g in enumerate(outs) if g != "UNRUN"]
+    meta, outs = [meta[i] for i in keep], [outs[i] for i in keep]
     recs = []
     for n, ((k, w, ids), got) in enumerate(zip(meta, outs)):
         c = ok[k]
@@ -555,7 +637,7 @@ def longer_inputs(prop, tier, seed, run, wd):
 def parse_observed(got, c, w, ids):
     """Observed runner line -> (kind, at, pulled, tree string). `at` is recovered from the payload id of the returned token
     (the ORIGINAL token object is identified by its payload), falling back to the pull count for unit payloads."""
-    if got == "PANIC":
+    if got == "PANIC" or got == "HANG" or got.startswith("DIED"):
         return "panic", 0, 0, ""
     head, rest = got.split(" pulled=")
     pulled = int(rest.split(" ")[0])
@@ -599,6 +681,8 @@ def replay(prop, path):
     else:
         exp = expected_line(c, predicted_for(preds[0], w), w, ids)
         bad = outs[0] != exp
+    if outs[0] == "HANG" or outs[0].startswith("DIED"):
+        bad = prop == "C01"
     log("expected: %s\nobserved: %s" % (exp, outs[0]))
     if bad:
         print("VIOLATION property=%s replay=%s" % (prop, path))
